@@ -28,9 +28,11 @@ def bset(ex, p, v, maxbytes):
             raise Unsupported('negative big.Int')
         maxbytes = (v.bit_length() + 7) // 8
     _tab(ex)[(p.obj.id, p.off)] = (v, maxbytes)
+    if not isinstance(v, int):
+        note_bound(ex, v, maxbytes)
     eff = getattr(ex, 'effects', None)
-    if eff is not None:
-        eff.append(('big-write', p.obj.label))
+    if eff is not None and p.obj.id <= getattr(ex, 'effects_epoch', 0):
+        eff.append(('big-write', 'big.Int %s that existed before the operation' % p.obj.label))
 
 def new_big(ex, v, maxbytes=0):
     p = Ptr(ex.mem.alloc(32, True, 'big.Int'), 0)
@@ -48,6 +50,42 @@ def from_bytes(bs):
         return 0
     t = z3.Concat(*[tobv(b, 8) for b in bs]) if len(bs) > 1 else tobv(bs[0], 8)
     return simp(z3.ZeroExt(W - 8 * len(bs), t))
+
+def note_bound(ex, T, k):
+    """record the fact T < 2^(8k), which holds on this path (from the construction of T or a length fork)"""
+    tab = ex.pstate.setdefault('big_bounds', {})
+    old = tab.get(T.get_id())
+    if old is None or k < old[1]:
+        tab[T.get_id()] = (T, k)
+
+def from_bytes_ex(ex, bs):
+    """from_bytes, but big-endian bytes that are exactly the low bytes of one term T known to fit in them are
+    read back as T itself (syntactic identity instead of a Concat/Extract round trip the solver has to undo)"""
+    v = from_bytes(bs)
+    if isinstance(v, int):
+        return v
+    i = 0
+    while i < len(bs) and isinstance(bs[i], int) and bs[i] == 0:
+        i += 1
+    rest = bs[i:]
+    n = len(rest)
+    T = None
+    for j, b in enumerate(rest):
+        if isinstance(b, int) or not z3.is_app_of(b, z3.Z3_OP_EXTRACT):
+            return v
+        hi, lo = b.params()
+        if (hi, lo) != (8 * (n - 1 - j) + 7, 8 * (n - 1 - j)):
+            return v
+        if T is None:
+            T = b.arg(0)
+        elif b.arg(0).get_id() != T.get_id():
+            return v
+    if T is None or T.size() != W:
+        return v
+    kb = ex.pstate.get('big_bounds', {}).get(T.get_id())
+    if kb is not None and kb[1] <= n:
+        return T
+    return v
 
 def to_byte(v, k):
     """byte k (0 = least significant) of value"""
@@ -68,7 +106,7 @@ def s_setbytes(ex, a, i):
     bs = ex.read_bytes(a[1])
     if len(bs) * 8 > W:
         raise Unsupported('big.Int.SetBytes longer than %d bits' % W)
-    bset(ex, a[0], from_bytes(bs), len(bs))
+    bset(ex, a[0], from_bytes_ex(ex, bs), len(bs))
     return a[0]
 
 def s_set(ex, a, i):
@@ -100,11 +138,21 @@ def nbytes(ex, x, m):
     if isinstance(x, int):
         return (x.bit_length() + 7) // 8
     conds = []
+    # bound knob (stated in the evidence of the checks that set it): only the listed minimal byte lengths of
+    # symbolic integers are explored; the other lengths are cut by an assumption
+    allowed = getattr(ex, 'big_len_set', None)      # allowed minimal byte lengths k
     for k in range(0, m + 1):
         lo = z3.BoolVal(True) if k == 0 else z3.UGE(x, z3.BitVecVal(1 << (8 * (k - 1)), W))
         hi = z3.ULT(x, z3.BitVecVal(1 << (8 * k), W))
-        conds.append(z3.And(lo, hi))
-    return ex.choose(conds)
+        conds.append(z3.And(lo, hi) if (allowed is None or k in allowed) else z3.BoolVal(False))
+    if allowed is not None:
+        ok = [c for c in conds if not z3.is_false(c)]
+        if not ex.feasible(z3.Or(ok)):
+            raise PathEnd('assume_false')
+        ex.add(z3.Or(ok))
+    k = ex.choose(conds)
+    note_bound(ex, x, k)
+    return k
 
 def s_bytes(ex, a, i):
     x, m = bget(ex, a[0])
